@@ -1815,6 +1815,11 @@ def check(program, rep):
     rep.guard("C14-R6", r6_status_offsets, program, rep)
     rep.guard("C14-R6", r6_version, program, rep)
     rep.guard("C14-R6", r6_pack_table, program, folder, rep)
+    # arguments handed to package functions under the wrong name / same-
+    # named optional parameters not passed on (NAMELINK, DESIGN.md 9.13)
+    from .. import namelink as _nl
+    rep.guard("C14-R7", _nl.rule, program, rep, "C14-R7",
+              [m for m in sorted(program.modules) if m.startswith("rig.machine_control")] + [m for m in sorted(program.modules) if m.startswith("rig.place_and_route")])
     return finish(rep, program, EXPLANATION, NOT_DECIDED,
                   trusted=["SC&MP cmd_info arg1 layout INFO_ARG1 in "
                            "rules/C14.py", "the checker's parser of "
